@@ -2,13 +2,14 @@
 from lib import *
 from rules.distinfo_common import *
 from rules.c14 import bytews_sites
+from rules.c11 import classification_rules
 
 EXPLANATION = (
     "D1 no lossy conversion (Path::display / to_string_lossy / from_utf8_lossy) reaches the output of Entry::as_bytes / Distinfo::as_bytes: the file name hole of every line is raw bytes; "
     "D2 the reader takes the name as raw bytes between the parentheses and the RCS Id as the raw line, and splits fields on bytes (no u8-as-char Unicode predicate); "
     "D3 line shapes: checksum line = [digest] \" (\" [name] \") = \" [hash] \"\\n\", size line = \"Size (\" [name] \") = \" [size] \" bytes\\n\", identical in Entry::as_bytes and Distinfo::as_bytes; "
     "the reader's field positions (keyword 0, name 1, value 3) and its size keyword are derived from the writer's shapes and must agree; "
-    "D4 layout: header (rcsid or $NetBSD$, blank line), then distfiles (checksum lines then size line), then patchfiles (checksum lines), loops driven by the maps' values() in order")
+    "D4 layout: the distfile/patchfile classification equals the naming rule on every feasible predicate assignment and is applied to the lossless-for-ASCII file name (rule shared with C11); header (rcsid or $NetBSD$, blank line), then distfiles (checksum lines then size line), then patchfiles (checksum lines), loops driven by the maps' values() in order")
 NOT_DECIDED = [
     "byte-exact equality for every canonical file (std formatting of u64, IndexMap semantics)",
     "sizes on patch entries are not written (the canonical layout has none)",
@@ -134,6 +135,9 @@ def run(ctx):
     sp = spec("distinfo.json")
     CK = "[digest] ([name]) = [hash]\n"
     SZ = "Size ([name]) = [size] bytes\n"
+
+    # which section a name is written in is decided by the distfile/patchfile classification, which must therefore be byte-faithful (shared with C11 D1)
+    classification_rules(ctx, sp, P="D4-")
 
     es, eh, ebody = collect_shapes(ctx, EAB)
     ds, dh, dbody = collect_shapes(ctx, DAB)
